@@ -148,6 +148,27 @@ func genContent(ch *core.Chooser, hosts []string, bufHint int, maxLines int) str
 			line = []string{hosts[0] + " #c", hosts[0] + " # c", "1.2.3.4", "::1 localhost # x", hosts[0] + "##", "#@#.x", "$$script", "||", "|", "*$image", "0.0.0.0 " + hosts[0] + " ## phishing", hosts[0] + "#comment", "! ||" + hosts[0] + "^", "#||" + hosts[0] + "^", "# " + hosts[0], "\r",
 				"0.0.0.0 " + hosts[0] + " # also see " + hosts[0] + "##.banner", "||" + hosts[0] + "/page#top##x", "/ads\\.js$/$$script", "||" + hosts[0] + "^$important#@#x",
 				"||" + hosts[0] + "/a#b#?#c", hosts[0] + " #%#x"}[ch.Intn("content.ambig", 22)]
+		case c == 17:
+			// two consecutive single-name lines that are equal under Unicode
+			// case folding but not as domain names (U+017F folds to s,
+			// U+212A to k): what a line is must not depend on its neighbour
+			h := hosts[ch.Intn("content.foldhost", len(hosts))]
+			tw := h
+			if i := strings.IndexAny(h, "sk"); i >= 0 {
+				tw = h[:i] + map[byte]string{'s': "\u017f", 'k': "\u212a"}[h[i]] + h[i+1:]
+			} else {
+				tw = strings.ToUpper(h)
+			}
+			pre := []string{"", "0.0.0.0 ", "||"}[ch.Intn("content.foldform", 3)]
+			suf := ""
+			if pre == "||" {
+				suf = "^"
+			}
+			if ch.Intn("content.foldorder", 2) == 0 {
+				line = pre + h + suf + "\n" + pre + tw + suf
+			} else {
+				line = pre + tw + suf + "\n" + pre + h + suf
+			}
 		default:
 			line = workload.GenRule(ch, workload.KCosmetic, hosts, nil)
 		}
